@@ -1127,6 +1127,33 @@ def _sort(ex, args, n):
     return None
 
 
+@free('lower_bound', 'upper_bound')
+def _bound_search(ex, args, n):
+    """std::lower_bound / std::upper_bound over a whole-range view of ints or reals: the first position whose element is not
+    less than (lower) / greater than (upper) the value -- which is what the algorithms return on a range that is sorted, the
+    precondition they state; the sortedness of the range is an obligation here"""
+    a, b = ex.ev(args[0]), ex.ev(args[1])
+    if len(args) != 3 or not (isinstance(a, PtrVal) and isinstance(b, PtrVal) and a.path is not None and a.path.same(b.path)):
+        raise Unsupported('std::lower/upper_bound over this range / with comparator')
+    p, v = _vec_at(ex, a.path)
+    if v.el[0] not in ('int', 'real'):
+        raise Unsupported('std::lower/upper_bound element type')
+    val = ex.ev(args[2])
+    if isinstance(val, RefVal):
+        val = ex.read(val.path)
+    val = ex.coerce(val, v.el)
+    upper = callee_name(n) == 'upper_bound'
+    ex.oblige('bounds', 'range', z3.And(0 <= a.off, a.off <= b.off, b.off <= v.len), n)
+    i, j = z3.Int(ex.fresh_name('i!bs')), z3.Int(ex.fresh_name('j!bs'))
+    ex.oblige('pre', 'sorted_range', z3.ForAll([i, j], z3.Implies(z3.And(a.off <= i, i <= j, j < b.off), z3.Select(v.data, i) <= z3.Select(v.data, j))), n)
+    r = z3.Int(ex.fresh_name('bound'))
+    before = (lambda e: e <= val) if upper else (lambda e: e < val)
+    ex.assume(z3.And(a.off <= r, r <= b.off,
+                     z3.ForAll([i], z3.Implies(z3.And(a.off <= i, i < r), before(z3.Select(v.data, i)))),
+                     z3.ForAll([i], z3.Implies(z3.And(r <= i, i < b.off), z3.Not(before(z3.Select(v.data, i)))))))
+    return PtrVal(a.path, r, a.el)
+
+
 @free('nth_element')
 def _nth_element(ex, args, n):
     """std::nth_element(first, nth, last) over reals: a rearrangement in which nothing before nth exceeds the element at nth and
